@@ -5,8 +5,8 @@
    messages with their UIDs, order, content, dates and flags, and the invariants of C01/C02 still
    hold afterwards.  That the implementation's restart IS that step (every mutation is committed
    before the command completes) is decided by the correspondence/oracle runs of the check. *)
-From Asimap Require Import Base.Res Spec.SetSem Model.Mbox Model.Codec Model.CodecText Proofs.CodecP Proofs.CodecTextP Proofs.MboxInv Proofs.MboxStep Proofs.MboxLe.
-From Coq Require Import Sorting.Sorted.
+From Asimap Require Import Base.Res Spec.SetSem Model.Mbox Model.Codec Model.CodecText Proofs.CodecP Proofs.CodecTextP Proofs.MboxInv Proofs.MboxStep Proofs.MboxLe Proofs.CodecWorld.
+From Coq Require Import Sorting.Sorted Lia.
 Open Scope Z_scope.
 
 Theorem C12_persisted_lists_roundtrip : forall l, StronglySorted Z.lt l -> expand_runs (compact_runs l) = l.
@@ -41,6 +41,14 @@ Theorem C12_persisted_text_alphabet : forall l, Forall (fun x => 0 <= x) l -> St
   forallb seq_char (compact_text l) = true.
 Proof. exact compact_text_alphabet. Qed.
 Print Assumptions C12_persisted_text_alphabet.
+
+(* ... and it applies to the UID list of every mailbox of every reachable world (after any history of
+   commands, deliveries, packs and restarts): what is written to the database for it reads back as it *)
+Theorem C12_reachable_uid_lists_persist : forall ps pn pd ops n b,
+  get_box (fst (run (init_world ps pn pd) ops)) n = Some b ->
+  expand_text (compact_text (uids b)) = Some (uids b).
+Proof. exact reachable_uid_lists_persist. Qed.
+Print Assumptions C12_reachable_uid_lists_persist.
 
 (* UID lists are strictly ascending in every reachable world (C02), so the round trip applies *)
 Theorem C12_restart_keeps_mailboxes : forall w n b,
